@@ -406,8 +406,15 @@ def read_worker(seeds):
             sheets, texts, got_by, seed = pending[wi]
             count("json_bytes_through_model_" + what)
             if what == "dump":
-                if ans != texts[label] and len(out["ties"]) < 10:
-                    out["ties"].append({"what": f"model to_json text and real convert_to_json text ({label}) differ", "workbook": sheets, "model": str(ans)[:600], "real": texts[label][:600], "seed": seed})
+                if ans != texts[label]:
+                    # same VALUE in another representation (indentation, separators, \\uXXXX escapes)?  Then the
+                    # writer's formatting changed, which the property does not care about: the model reader
+                    # on the real bytes (next request) and the C oracle carry the claim; recorded, not alarmed
+                    both = drv.results([{"op": "jsontext.loads", "text": ans}, {"op": "jsontext.loads", "text": texts[label]}]) if isinstance(ans, str) else [0, 1]
+                    if both[0] == both[1] and isinstance(both[0], dict) and "ok" in both[0]:
+                        count("json_writer_text_differs_same_value")
+                    elif len(out["ties"]) < 10:
+                        out["ties"].append({"what": f"model to_json text and real convert_to_json text ({label}) differ", "workbook": sheets, "model": str(ans)[:600], "real": texts[label][:600], "seed": seed})
             else:
                 real = got_by[label]
                 mt = model_book(ans)
@@ -1917,6 +1924,10 @@ def run(ck: core.Check):
     if json.dumps(lit, ensure_ascii=False) != "\"a\\\"b\\\\c/\\n\\r\\t\\b\\f\\u0000\\u001f\x7fé\"":
         ck.tie_break("kernel-checked fact json_string_facts (the literal) does not hold on the real json.dumps", {"real": json.dumps(lit, ensure_ascii=False)})
 
+    if ck.strata.get("json_writer_text_differs_same_value"):
+        ck.notes.append("to_json no longer writes the text the model writes (json.dumps(book, ensure_ascii=False, indent=2)) but the same JSON value in another "
+                        "representation: json_file_roundtrip then speaks about the model's text only; the model reader agrees with the real reader on the real text "
+                        "(%d outputs)" % ck.strata["json_writer_text_differs_same_value"])
     # self-check of the generator's reach (exit 2, not a violation)
     need = ["split_over_two_inputs", "cell_newline", "cell_comma", "cell_quote", "cell_astral", "cell_empty", "cell_lead_eq_or_apostrophe", "compiled_ok",
             "sanitize:ok", "sanitize:allNoneHeaders", "sanitize:noHeaders", "readjson:invalidDimensions", "readjson:ok", "tojson:dup_headers",
